@@ -228,6 +228,18 @@ class C13:
                     V("trace-frame-without-address", "frame id 0x%08X (data %s) was put on the bus at t=%.4f while the CA was in state "
                       "%r holding address %r" % (e.can_id, e.data.hex()[:24], e.t - 1000, st_, adr))
                     break
+                # independent of what the CA reports: the address it holds is the one it last claimed on the bus
+                claimed = p["addr"] if p["bypass"] else None
+                for (e2, _, _) in snap:
+                    if e2.k >= e.k:
+                        break
+                    f2 = R.id_fields(e2.can_id)
+                    if e2.ext and f2["pf"] == 0xEE and f2["ps"] == 255 and list(e2.data) == nb and f2["sa"] < 254:
+                        claimed = f2["sa"]
+                if claimed is not None and sa != claimed:
+                    V("trace-frame-from-unclaimed-address", "frame id 0x%08X was sent from address %d at t=%.4f; the last address this CA "
+                      "claimed on the bus is %d" % (e.can_id, sa, e.t - 1000, claimed))
+                    break
         finally:
             w.close()
         return {"violations": viol, "labels": sorted(set(labels)) + ["aac" if p["aac"] else "fixed", "bypass" if p["bypass"] else "claim"],
